@@ -34,7 +34,9 @@ def cases(tier, seed):
         yield {"kind": "repo_tests"}
     n, length = (300, 25) if tier == "quick" else (10000, 40)
     for i in range(n):
-        yield {"seed": seed, "idx": i, "length": length, "config": CONFIGS[i % 3]}
+        # every fourth history contains writes that a kernel-level file size limit cuts short (the caller sees an
+        # I/O error): whatever they leave behind, everything *published* must stay intact
+        yield {"seed": seed, "idx": i, "length": length, "config": CONFIGS[i % 3], "faulty": i % 4 == 3}
 
 
 def open_backend(sc, config, cache=True):
@@ -77,10 +79,49 @@ def run_case(case):
             out["viol"].append({"sig": sig, "msg": "%s; config %s step %d; history %s"
                                 % (msg, case["config"], step, json.dumps(ops[: step + 1]))})
 
+        faulty = bool(case.get("faulty"))
+        frng = core.rng_for(case["seed"], ID, case["idx"], "faults")
         for step, op in enumerate(ops):
             before = dict(model.d)
-            model.apply(op)
-            got = storeops.apply_backend(b, refs, vals, op, model_before=before)
+            limit = None
+            failed_write = False
+            if faulty and op[0] == "memoize" and frng.random() < 0.35:
+                limit = frng.choice([0, 7, 60, 300, 1500, 4000])
+            if limit is not None:
+                import resource
+                import signal
+
+                signal.signal(signal.SIGXFSZ, signal.SIG_IGN)
+                soft, hard = resource.getrlimit(resource.RLIMIT_FSIZE)
+                resource.setrlimit(resource.RLIMIT_FSIZE, (limit, hard))
+                try:
+                    got = storeops.apply_backend(b, refs, vals, op, model_before=before)
+                finally:
+                    resource.setrlimit(resource.RLIMIT_FSIZE, (soft, hard))
+                out["obs"]["writes_under_a_file_size_limit"] += 1
+                if isinstance(got, tuple) and got and got[0] == "raise":
+                    out["obs"]["writes_cut_short"] += 1
+                    if got[1] not in ("OSError", "IOError"):
+                        fail("storage operation raises " + got[1], "op %s under a %d byte file size limit raised %s" % (op, limit, got[2:]), step)
+                        break
+                    # the call's entry is now either the old one or the new one: stop tracking it; everything else
+                    # must be as before (the memory cache may hold what the failed write put there: drop it)
+                    key = (op[1], op[2])
+                    live.pop(key, None)
+                    model.d.pop(key, None)
+                    try:
+                        b.forget_call(refs.fwah(*key))
+                        plain.forget_call(refs.fwah(*key))
+                    except Exception as e:
+                        fail("storage operation raises " + type(e).__name__, "forget after a failed write of %s: %r" % (op, e), step)
+                        break
+                    got = None
+                    failed_write = True
+                else:
+                    model.apply(op)
+            else:
+                model.apply(op)
+                got = storeops.apply_backend(b, refs, vals, op, model_before=before)
             if isinstance(got, tuple) and got and got[0] == "raise":
                 fail("storage operation raises " + got[1], "op %s raised %s" % (op, got[2:]), step)
                 break
@@ -88,7 +129,7 @@ def run_case(case):
             for key in list(live):
                 if key not in model.d:
                     del live[key]
-            if op[0] == "memoize":
+            if op[0] == "memoize" and not failed_write:
                 key = (op[1], op[2])
                 m = plain.get_memento(refs.fwah(*key))
                 if m is None:
@@ -143,8 +184,18 @@ def run_case(case):
             vdir = os.path.join(sc.path("d"), "c", ".versions")
             if os.path.isdir(vdir):
                 count = collections.Counter()
+                published = None
+                if faulty:  # a write that was cut short leaves an unpublished object behind: only linked ones count
+                    published = set()
+                    cdir = os.path.join(sc.path("d"), "c")
+                    for ln in os.listdir(cdir):
+                        if ln.endswith(".link"):
+                            with open(os.path.join(cdir, ln)) as lf:
+                                published.add(os.path.realpath(lf.read().strip()))
                 for v in os.listdir(vdir):
                     for h in os.listdir(os.path.join(vdir, v)):
+                        if published is not None and os.path.realpath(os.path.join(vdir, v, h)) not in published:
+                            continue
                         if ".meta." not in h:
                             count[h] += 1
                             out["obs"]["stored_objects_scanned"] += 1
@@ -168,6 +219,6 @@ def run_case(case):
 
 
 def conclude(agg):
-    return core.first(core.need(agg, "live_mementos_rechecked", 2000),
+    return core.first(core.need(agg, "live_mementos_rechecked", 2000), core.need(agg, "writes_cut_short", 50),
                       core.need(agg, "content_keys_rehashed", 1000),
                       core.need(agg, "stored_objects_scanned", 1000)), {}
